@@ -376,6 +376,17 @@ func (g *c10Gen) editorsOf(f fttypes.Files) []int {
 func (g *c10Gen) signer(f fttypes.Files) (string, string) {
 	own := g.ownerOf(f)
 	x := g.p.Intn(100)
+	// an entry handed to a plain address instead of an account's digest has no owner: the account whose address
+	// was written there is a stranger to it like everybody else, and is the one most likely to try
+	if own < 0 && x < 60 {
+		for _, a := range g.accts {
+			for _, sp := range []string{a.String(), strings.ToUpper(a.String())} {
+				if f.Owner == hexsha("o"+f.Address+sp) {
+					return a.String(), "named-by-plain-address"
+				}
+			}
+		}
+	}
 	switch {
 	case own >= 0 && x < 56:
 		return g.accts[own].String(), "owner"
@@ -630,6 +641,10 @@ func (g *c10Gen) next(store []c10Entry) c10Op {
 		case 1:
 			no = PickOne(p, c10OddStrings)
 			role += "+odd-new-owner"
+		case 2:
+			// a client that sends the receiver's address instead of its digest
+			no = Spell(g.accts[p.Intn(len(g.accts))], p.Chance(1, 4))
+			role += "+plain-address-new-owner"
 		}
 		op := c10Op{Kind: "chown", Creator: cr, Address: f.Address, FileOwner: acct, NewOwner: no, Shape: role}
 		if craft {
